@@ -32,6 +32,9 @@ enum Op {
     Strains(GameMode),
     GradualDifficulty(GameMode),
     Performance(GameMode),
+    /// one builder value used twice: generate_state() first, then calculate() - reported is the calculate() result, which
+    /// has to be the one a fresh builder gives ("fresh vs reused builder values")
+    PerformanceReusedBuilder(GameMode),
     GradualPerformance(GameMode),
     Attributes(GameMode),
 }
@@ -108,6 +111,26 @@ fn run_op(op: &Op, e: &Entry, spec: &SetSpec, sc: &ScoreSpec, states: &[ScoreSta
                 Ok(c) => dump(&api::perf_calc(sc.apply(Performance::new(c.as_ref()).difficulty(d)))),
             }
         }
+        Op::PerformanceReusedBuilder(m) => {
+            let d = spec.to_difficulty(*m);
+            let mods = spec.mods.to_gamemods(*m);
+            match map.convert_ref(*m, &mods) {
+                Err(e) => format!("{e:?}"),
+                Ok(c) => {
+                    let fresh = dump(&api::perf_calc(sc.apply(Performance::new(c.as_ref()).difficulty(d.clone()))));
+                    let mut p = sc.apply(Performance::new(c.as_ref()).difficulty(d));
+                    let s1 = bracket("generate_state", || p.generate_state());
+                    let s2 = bracket("generate_state", || p.generate_state());
+                    let reused = dump(&api::perf_calc(p));
+                    // both values are part of the recorded result: any difference shows up as nondeterminism of this op
+                    if dump(&s1) == dump(&s2) && fresh == reused {
+                        fresh
+                    } else {
+                        format!("REUSED-BUILDER-DIFFERS state1={} state2={} fresh={fresh} reused={reused}", dump(&s1), dump(&s2))
+                    }
+                }
+            }
+        }
         Op::GradualPerformance(m) => {
             let d = spec.for_gradual().to_difficulty(*m);
             match api::gradual_perf(d, map, *m) {
@@ -138,7 +161,8 @@ fn op_name(op: &Op) -> String {
         Op::Difficulty(m) => format!("difficulty:{}", mode_name(*m)),
         Op::Strains(m) => format!("strains:{}", mode_name(*m)),
         Op::GradualDifficulty(m) => format!("gradual_difficulty:{}", mode_name(*m)),
-        Op::Performance(m) => format!("performance:{}", mode_name(*m)),
+        // same key as the fresh-builder operation on purpose: the two must agree
+        Op::Performance(m) | Op::PerformanceReusedBuilder(m) => format!("performance:{}", mode_name(*m)),
         Op::GradualPerformance(m) => format!("gradual_performance:{}", mode_name(*m)),
         Op::Attributes(m) => format!("attributes:{}", mode_name(*m)),
     }
@@ -157,7 +181,14 @@ fn gen_op(rng: &mut Rng, map: &Beatmap) -> Op {
         8 | 9 => Op::Difficulty(m),
         10 => Op::Strains(m),
         11 => Op::GradualDifficulty(m),
-        12 | 13 => Op::Performance(m),
+        12 => Op::Performance(m),
+        13 => {
+            if rng.chance(0.5) {
+                Op::Performance(m)
+            } else {
+                Op::PerformanceReusedBuilder(m)
+            }
+        }
         14 => Op::GradualPerformance(m),
         _ => Op::Attributes(m),
     }
@@ -331,6 +362,20 @@ pub fn case(ctx: &mut Ctx, idx: u64) {
                 Err(p) => format!("PANIC {}", p.sig()),
             };
             ctx.hist_line(&key, hash_str(&val));
+            if val.starts_with("REUSED-BUILDER-DIFFERS") {
+                ctx.violation(
+                    "C01/reused-builder/performance",
+                    &format!(
+                        "a performance builder that was asked for its state first gives a different result than a fresh one | settings=[{}] score={}\n {}",
+                        spec.describe(),
+                        sc.describe(),
+                        crate::runner::truncate(&val, 2500)
+                    ),
+                    Some(&e.text),
+                );
+                let _ = std::fs::remove_file(&tmp);
+                return;
+            }
             // purity: the map given by reference is untouched
             if dump(&e.map) != e.before {
                 ctx.violation(
